@@ -285,7 +285,7 @@ impl SModel {
 
     fn choices(&self) -> &'static [Choice] {
         match self.which {
-            Which::C17 => &FAULTS,
+            Which::C17 => &FAULTS_AND_SHORT,
             _ => &LEGAL,
         }
     }
@@ -407,7 +407,9 @@ impl SModel {
     pub fn step(&self, state: &SState, act: &Act) -> Option<SState> {
         self.transitions.fetch_add(1, Ordering::Relaxed);
         let flen = self.img.bytes.len();
-        let fault_script = act.script.iter().any(|(_, c)| c.is_fault());
+        // for C17 every scripted deviation (plain short reads included) puts the answer under the
+        // 'Err or exactly the fault-free answer' rule
+        let fault_script = act.script.iter().any(|(_, c)| c.is_fault() || self.which == Which::C17);
         let mut hist = state.hist.clone();
         hist.push(act.clone());
         let mut bad: Option<String> = None;
